@@ -44,6 +44,11 @@ def confirm(name, prop, finding):
         import native_cli
         ok, info = native_cli.confirm_c15() if prop == "C15" else native_cli.confirm_c17() if prop == "C17" else native_cli.confirm_c16()
         return bool(ok), info
+    if name == "c12":
+        # re-presentation of a game: the constructor's verdict on the tree family AND the evaluator against the oracle
+        ok1, i1 = run("c11", ("table",))
+        ok2, i2 = run("c01")
+        return bool(ok1) or bool(ok2), {"c11": i1, "c01": i2, "violations": (i1 or {}).get("violations", 0) + (i2 or {}).get("violations", 0)}
     args = ()
     if name == "c11":
         k = getattr(finding, "key", "") or ""
